@@ -46,6 +46,9 @@ type Channel struct {
 	closeLock sync.Mutex
 	// sendLock serializes the transmission of packets.
 	sendLock sync.Mutex
+	// txLock guards the queue of outgoing packets - the channel may be
+	// closed (which sends the logout) while a package is being sent.
+	txLock sync.Mutex
 
 	channelId int
 
@@ -141,10 +144,12 @@ func (tds *Conn) NewChannel() (*Channel, error) {
 func (tdsChan *Channel) Reset() {
 	tdsChan.RLock()
 	defer tdsChan.RUnlock()
+	tdsChan.txLock.Lock()
+	defer tdsChan.txLock.Unlock()
 	tdsChan.reset()
 }
 
-// reset is Reset for callers already holding the read lock. The read
+// reset is Reset for callers already holding the read lock and txLock. The read
 // lock must not be acquired recursively - a concurrent Close waiting
 // for the write lock blocks further read locks and would deadlock
 // with the caller.
@@ -517,6 +522,9 @@ func (tdsChan *Channel) QueuePackage(ctx context.Context, pkg Package) error {
 		return ErrChannelClosed
 	}
 
+	tdsChan.txLock.Lock()
+	defer tdsChan.txLock.Unlock()
+
 	if acceptor, ok := pkg.(LastPkgAcceptor); ok {
 		if err := acceptor.LastPkg(tdsChan.lastPkgTx); err != nil {
 			return fmt.Errorf("error calling LastPkg on %s: %w", pkg, err)
@@ -542,6 +550,9 @@ func (tdsChan *Channel) SendRemainingPackets(ctx context.Context) error {
 	if tdsChan.closed {
 		return ErrChannelClosed
 	}
+
+	tdsChan.txLock.Lock()
+	defer tdsChan.txLock.Unlock()
 
 	// SendRemainingPackets is only called when completing sending
 	// packets to the server and preparing to receive the answer.
